@@ -66,47 +66,76 @@ use tokio::sync::Notify;
 
 static PANICS: AtomicUsize = AtomicUsize::new(0);
 static TOKEN: OnceLock<MetricToken<i64>> = OnceLock::new();
+static TOKEN_ID: OnceLock<MetricToken<i64>> = OnceLock::new();
 
-fn install_hook() {
+pub fn install_hook() {
     std::panic::set_hook(Box::new(|_| {
         PANICS.fetch_add(1, Ordering::SeqCst);
     }));
 }
 
+thread_local! {
+    /// id mode (component `loop`): `Some(next)` makes every birth carry a metric `id = <fresh>` and
+    /// every publish send `id = <fresh>` as its first metric; `None` (component `eon`) = off
+    static IDS: std::cell::Cell<Option<i64>> = const { std::cell::Cell::new(None) };
+}
+
+/// switch id mode on (the next fresh id is `first`) or off
+pub fn id_mode(first: Option<i64>) {
+    IDS.with(|c| c.set(first));
+}
+
+fn fresh_id() -> Option<i64> {
+    IDS.with(|c| {
+        let v = c.get();
+        if let Some(x) = v {
+            c.set(Some(x + 1));
+        }
+        v
+    })
+}
+
 /// A `MetricToken` can only be obtained from a `BirthInitializer`, i.e. during a birth. The
 /// harness needs `PublishMetric`s before the node under test was ever birthed, so it births a
 /// throw-away node once and keeps the (name-addressed) token.
-fn token() -> &'static MetricToken<i64> {
-    TOKEN.get_or_init(|| {
-        struct TokMgr(Arc<Mutex<Option<MetricToken<i64>>>>);
-        impl MetricManager for TokMgr {
-            fn initialise_birth(&self, bi: &mut BirthInitializer) {
-                let t = bi
-                    .register_metric(BirthMetricDetails::new_with_initial_value("m", 1i64).use_alias(false))
-                    .unwrap();
-                *self.0.lock().unwrap() = Some(t);
-            }
-        }
-        impl NodeMetricManager for TokMgr {}
-        let slot = Arc::new(Mutex::new(None));
-        let rt = runtime();
-        let s2 = slot.clone();
-        rt.block_on(async move {
-            let (_hub, client, el, feeder) = mock_pair();
-            let (eon, _h) = EoNBuilder::new(el, client)
-                .with_group_id("g")
-                .with_node_id("boot")
-                .with_metric_manager(TokMgr(s2))
-                .build()
+fn boot_token(name: &'static str) -> MetricToken<i64> {
+    struct TokMgr(Arc<Mutex<Option<MetricToken<i64>>>>, &'static str);
+    impl MetricManager for TokMgr {
+        fn initialise_birth(&self, bi: &mut BirthInitializer) {
+            let t = bi
+                .register_metric(BirthMetricDetails::new_with_initial_value(self.1, 1i64).use_alias(false))
                 .unwrap();
-            tokio::spawn(eon.run());
-            feeder.push(Event::Online);
-            settle().await;
-        });
-        drop(rt);
-        let t = slot.lock().unwrap().take().expect("bootstrap token");
-        t
-    })
+            *self.0.lock().unwrap() = Some(t);
+        }
+    }
+    impl NodeMetricManager for TokMgr {}
+    let slot = Arc::new(Mutex::new(None));
+    let rt = runtime();
+    let s2 = slot.clone();
+    rt.block_on(async move {
+        let (_hub, client, el, feeder) = mock_pair();
+        let (eon, _h) = EoNBuilder::new(el, client)
+            .with_group_id("g")
+            .with_node_id("boot")
+            .with_metric_manager(TokMgr(s2, name))
+            .build()
+            .unwrap();
+        tokio::spawn(eon.run());
+        feeder.push(Event::Online);
+        settle().await;
+    });
+    drop(rt);
+    let t = slot.lock().unwrap().take().expect("bootstrap token");
+    t
+}
+
+pub fn token() -> &'static MetricToken<i64> {
+    TOKEN.get_or_init(|| boot_token("m"))
+}
+
+/// the token of the metric `id` (id mode)
+pub fn token_id() -> &'static MetricToken<i64> {
+    TOKEN_ID.get_or_init(|| boot_token("id"))
 }
 
 // ------------------------------------------------------------------------------------------
@@ -145,6 +174,9 @@ impl MetricManager for RecMgr {
         match self.dev {
             None => self.hub.note("B:node"),
             Some(d) => self.hub.note(format!("B:dev:{}", d)),
+        }
+        if let Some(v) = fresh_id() {
+            let _ = bi.register_metric(BirthMetricDetails::new_with_initial_value("id", v).use_alias(false));
         }
         let _ = bi.register_metric(BirthMetricDetails::new_with_initial_value("m", 1i64).use_alias(false));
     }
@@ -202,7 +234,27 @@ async fn do_pub<P: MetricPublisher>(p: &P, mode: &str, ms: Vec<PublishMetric>) -
 
 fn metrics(n: usize) -> Vec<PublishMetric> {
     // descending timestamps, so that the sorting variants have something to do
-    (0..n).map(|i| token().create_publish_metric(Some(i as i64)).timestamp(now_ms() + (n - i) as u64)).collect()
+    (0..n)
+        .map(|i| {
+            let ts = now_ms() + (n - i) as u64;
+            match (i, if i == 0 { fresh_id() } else { None }) {
+                // id mode: the first metric of every publish is `id = <fresh>`
+                (0, Some(v)) => token_id().create_publish_metric(Some(v)).timestamp(ts),
+                _ => token().create_publish_metric(Some(i as i64)).timestamp(ts),
+            }
+        })
+        .collect()
+}
+
+/// quiescence barrier of one line: `settle()` plus, for the closed loop, `yields` scheduler
+/// rounds at the new instant so that a task woken by a timer expiring exactly there (the host's
+/// reorder timeout) still runs inside this line, before the mock clocks move on
+async fn barrier(yields: usize) {
+    tokio::time::sleep(Duration::from_nanos(1)).await;
+    for _ in 0..yields {
+        tokio::task::yield_now().await;
+    }
+    advance_clocks(1);
 }
 
 fn kv<'a>(w: &'a [&'a str], key: &str) -> Option<&'a str> {
@@ -864,6 +916,12 @@ pub struct Sess {
     cur_j: Option<usize>,
     orc: Oracle,
     pub cancelled: bool,
+    /// scheduler rounds after the barrier of each line (0 for component `eon`)
+    pub yields: usize,
+    /// closed loop: the event to push instead of the one an `ncmd` / `dcmd` stimulus would build
+    inject: Option<Event>,
+    /// the `eon new …` request line `begin` emitted
+    pub first_line: String,
 }
 
 impl Sess {
@@ -907,7 +965,60 @@ impl Sess {
             cur_j: None,
             orc: Oracle::new(),
             cancelled: false,
+            yields: 0,
+            inject: None,
+            first_line: String::new(),
         }
+    }
+
+    /// build the node, emit the `eon new` line (which starts a new case) and run the oracles on it
+    pub fn begin(out: &mut Out, cd: u64) -> Sess {
+        let mut sess = Sess::build(cd);
+        let evs = sess.collect();
+        let obs = show_all(&evs);
+        sess.first_line = format!("eon new cd={} => {}", cd, obs);
+        out.begin_case(&sess.first_line, "ok");
+        let stim = format!("new cd={}", cd);
+        let w: Vec<&str> = stim.split(' ').collect();
+        let ctx = LineCtx { stim: &stim, w: &w, evs: &evs, obs: &obs, cur_j: None, qs: true, qe: true, now: sess.vnow };
+        sess.orc.line(&ctx, out);
+        sess
+    }
+
+    /// the runtime the node lives on (None after a panic tore it down)
+    pub fn rt(&self) -> Option<&tokio::runtime::Runtime> {
+        self.rt.as_ref()
+    }
+
+    pub fn hub(&self) -> Hub {
+        self.hub.clone()
+    }
+
+    /// closed loop: execute the stimulus `stim` (an `ncmd …` / `dcmd …` line) but push `ev`, the event
+    /// decoded from the real wire bytes, instead of a synthetic one
+    pub fn exec_event(&mut self, stim: &str, ev: Event, out: &mut Out) -> String {
+        self.inject = Some(ev);
+        let r = self.exec(stim, out);
+        self.inject = None;
+        r
+    }
+
+    /// closed loop: `ms` >= 1 milliseconds of mock-clock and virtual time went by outside the node's
+    /// lines (deliveries to the host). For the model this is the line `adv <ms-1>` (an `adv k` line
+    /// costs k + 1); whatever the node did meanwhile is that line's observation. Returns (stimulus, obs).
+    pub fn elapsed(&mut self, ms: u64, out: &mut Out) -> (String, String) {
+        let stim = format!("adv {}", ms - 1);
+        let qs = self.quiet();
+        self.cur_j = None;
+        self.vnow += ms;
+        let evs = self.collect();
+        let obs = show_all(&evs);
+        let w: Vec<&str> = stim.split(' ').collect();
+        out.count("stim:adv");
+        let qe = self.quiet();
+        let ctx = LineCtx { stim: &stim, w: &w, evs: &evs, obs: &obs, cur_j: None, qs, qe, now: self.vnow };
+        self.orc.line(&ctx, out);
+        (stim, obs)
     }
 
     fn ctl(&mut self, d: u32) -> Arc<CbCtl> {
@@ -1059,6 +1170,10 @@ impl Sess {
             "offline" => {
                 self.feeder.push(Event::Offline);
             }
+            "ncmd" | "dcmd" if self.inject.is_some() => {
+                let ev = self.inject.take().unwrap();
+                self.feeder.push(ev);
+            }
             "ncmd" => {
                 let mut m = Metric::new();
                 match flag("rb").unwrap() {
@@ -1193,10 +1308,11 @@ impl Sess {
             Some(rt) => rt,
             None => return (vec![Ev::Note("PANIC".into())], qs, qs),
         };
+        let yields = self.yields;
         let r = catch(AssertUnwindSafe(|| {
             rt.block_on(async {
                 self.apply(&w).await;
-                settle().await;
+                barrier(yields).await;
             })
         }));
         self.vnow += 1;
@@ -1268,14 +1384,7 @@ pub struct Case<'a> {
 
 impl<'a> Case<'a> {
     pub fn begin(out: &'a mut Out, cd: u64) -> Case<'a> {
-        let mut sess = Sess::build(cd);
-        let evs = sess.collect();
-        let obs = show_all(&evs);
-        out.begin_case(&format!("eon new cd={} => {}", cd, obs), "ok");
-        let stim = format!("new cd={}", cd);
-        let w: Vec<&str> = stim.split(' ').collect();
-        let ctx = LineCtx { stim: &stim, w: &w, evs: &evs, obs: &obs, cur_j: None, qs: true, qe: true, now: sess.vnow };
-        sess.orc.line(&ctx, out);
+        let sess = Sess::begin(out, cd);
         Case { sess, out, nstim: 0 }
     }
 
